@@ -26,5 +26,15 @@ UNIT = {
          "wrap_pre": "impl MachineState {\n", "wrap_post": "}\n"},
         {"fn": "select_switch_on_structure_index", "impl": r"impl MachineState", "file": F_D, "emit_name": "select_switch_on_structure_index", "rewrites": RW,
          "wrap_pre": "impl MachineState {\n", "wrap_post": "}\n"},
+        {"block": "enum", "header": r"enum IndexingInstruction", "file": F_INS, "rewrites": ["strip_type_head"]},
+        {"block": "enum", "header": r"enum IndexingLine", "file": F_INS, "rewrites": ["strip_type_head"]},
+        # the dispatch of a call on its first argument. R12: the nested validity test is a shim; R7: reading the indexing
+        # lines out of the code vector and the argument out of the registers are shims
+        {"fn": "execute_switch_on_term", "impl": r"impl Machine", "file": F_D, "emit_name": "Machine_execute_switch_on_term",
+         "rewrites": ["strip_head", "name_return", ("hoist_out", "dynamic_external_of_clause_is_valid"),
+            ("replace", "self.code[self.machine_st.p].to_indexing_line_mut().unwrap()", "self.indexing_lines_at_p()", "R7"),
+            ("replace", "self .machine_st .store(self.machine_st.deref(self.machine_st.registers[arg]))", "self.machine_st.argument(arg)", "R7"),
+            ("macro_fn", "unreachable", "unreachable_abort", "R18"), "ref_patterns"],
+         "wrap_pre": "impl Machine {\n#[verifier::exec_allows_no_decreases_clause]\n", "wrap_post": "}\n"},
     ],
 }
